@@ -18,7 +18,9 @@ TextRows == {<<"", 0, FALSE, 0, 1, 0, "">>, <<"0", 1, TRUE, 0, 1, 0, "false">>, 
 TextFx(r, bad) == [FX0 EXCEPT !.numlit = r[3], !.n = r[4], !.d = r[5], !.ex = r[6], !.word = r[7], !.badutf8 = bad, !.empty = (r[2] = 0 \/ bad)]
 Texts == {Src(Mk("str", "str", 0, 1, r[1], r[2], <<>>, <<>>, 0), TextFx(r, FALSE)) : r \in TextRows} \cup
          {Src(Mk("bytes", "bytes", 0, 1, r[1], r[2], <<>>, <<>>, 0), TextFx(r, FALSE)) : r \in TextRows} \cup
-         {Src(Mk("bytes", "bytes", 0, 1, "\\xff", 1, <<>>, <<>>, 0), TextFx(<<"", 1, FALSE, 0, 1, 0, "">>, TRUE))}
+         {Src(Mk("bytes", "bytes", 0, 1, "\\xff", 1, <<>>, <<>>, 0), TextFx(<<"", 1, FALSE, 0, 1, 0, "">>, TRUE))} \cup
+         \* undecodable bytes whose lenient decoding is one of the texts above ("\\xff" + text): the facts describe the decoded text
+         {Src(Mk("bytes", "bytes", 0, 1, "\\xff" \o r[1], r[2] + 1, <<>>, <<>>, 0), [TextFx(r, TRUE) EXCEPT !.empty = (r[2] = 0)]) : r \in {q \in TextRows : q[2] > 0}}
 Elems == {s \in Scalars \cup Texts : s.x.k \in {"none", "int", "str"} /\ s.x.s \in {"", "7", "abc"} /\ s.x.n \in {0, 1}}
 Colls == {Src(Mk(k, k, 0, 1, "", 0, <<>>, <<>>, 0), [FX0 EXCEPT !.items = <<>>]) : k \in {"list", "tuple", "set"}} \cup
          {Src(Mk(k, k, 0, 1, "", 1, <<e.x>>, <<>>, 0), [FX0 EXCEPT !.items = <<e.fx>>]) : k \in {"list", "tuple", "set"}, e \in Elems} \cup
